@@ -180,6 +180,8 @@ class Arr:
     def sym_getitem(self, it, key):
         if isinstance(key, tuple) and len(key) == 1:
             key = key[0]
+        if isinstance(key, tuple) and len(key) == 2 and key[1] is None and isinstance(key[0], slice) and key[0] == slice(None, None, None):
+            return self     # x[:, np.newaxis]: a column vector; broadcasting against 2-D arrays is per column
         if isinstance(key, Series):
             key = key.arr()
         if isinstance(key, Arr):
@@ -288,6 +290,21 @@ def elementwise(it, fn, *args):
     """apply scalar function to aligned arrays / scalars"""
     if any(isinstance(a, Opaque) or getattr(a, "opaque_like", False) for a in args):
         return Opaque("elementwise(unknown)")
+    colsargs = [a for a in args if isinstance(a, Cols)]
+    if colsargs:
+        n = len(colsargs[0].cols)
+        if any(len(c.cols) != n for c in colsargs):
+            raise PyRaise(ValueError("operands could not be broadcast together"))
+        return Cols([elementwise(it, fn, *[(a.cols[k] if isinstance(a, Cols) else a) for a in args]) for k in range(n)])
+    multi = [a for a in args if isinstance(a, MultiArr)]
+    if multi:
+        segs = list(multi[0].parts)
+        for m2 in multi[1:]:
+            if list(m2.parts) != segs:
+                raise EngineError("element-wise operation on arrays with different row segments")
+        if any(isinstance(a, (Arr, Series)) for a in args):
+            raise EngineError("element-wise operation of a whole ppc column with a single-table array")
+        return MultiArr({sg: elementwise(it, fn, *[(a.parts[sg] if isinstance(a, MultiArr) else a) for a in args]) for sg in segs})
     arrs = [a for a in args if isinstance(a, (Arr, Series))]
     arrs = [a.arr() if isinstance(a, Series) else a for a in arrs]
     if not arrs:
@@ -541,12 +558,22 @@ class Series:
 # ppc matrices
 # ------------------------------------------------------------------------------------------------
 class SegBound(Imm):
-    def __init__(self, seg, side):
+    """a row boundary of a ppc matrix: end of segment `before`, start of segment `after` (either may be None)"""
+
+    def __init__(self, seg, side=None, before=None, after=None):
         self.seg = seg
         self.side = side
+        self.after = after if after is not None else (seg if side == "lo" else None)
+        self.before = before if before is not None else (seg if side == "hi" else None)
 
     def __repr__(self):
-        return f"<{self.side} of {self.seg}>"
+        return f"<bound end:{self.before} start:{self.after}>"
+
+
+def seg_between(lo, hi):
+    if isinstance(lo, SegBound) and isinstance(hi, SegBound) and lo.after is not None and lo.after == hi.before:
+        return lo.after
+    return None
 
 
 class Mat:
@@ -586,8 +613,9 @@ class Mat:
     def _seg_of(self, key):
         if isinstance(key, slice):
             lo, hi = key.start, key.stop
-            if isinstance(lo, SegBound) and isinstance(hi, SegBound) and lo.seg == hi.seg and lo.side == "lo" and hi.side == "hi":
-                return lo.seg
+            sg = seg_between(lo, hi)
+            if sg is not None:
+                return sg
             if lo is None and hi is None and len(self.segments) == 1:
                 return next(iter(self.segments))
             if lo is None and isinstance(hi, SegBound) and hi.side == "hi" and list(self.segments)[0] == hi.seg:
@@ -600,8 +628,20 @@ class Mat:
         if not isinstance(key, tuple) or len(key) != 2:
             raise EngineError(f"ppc matrix index {key!r}")
         rows, col = key
+        if isinstance(rows, tuple) and len(rows) == 1:
+            rows = rows[0]      # index tuple returned by np.nonzero
         if isinstance(rows, Series):
             rows = rows.arr()
+        if isinstance(rows, Cols):
+            return Cols([self.sym_getitem(it, (c, col)) for c in rows.cols])
+        if isinstance(rows, MultiArr):
+            return MultiArr({sg: self.sym_getitem(it, (a, col)) for sg, a in rows.parts.items()})
+        if isinstance(col, (tuple, list)) and all(isinstance(c, int) for c in col) and self._seg_of(rows) is None and \
+                isinstance(rows, slice) and rows == slice(None, None, None):
+            return Cols([self.sym_getitem(it, (rows, c)) for c in col])
+        if isinstance(col, int) and not isinstance(col, bool) and isinstance(rows, slice) and rows == slice(None, None, None) \
+                and len(self.segments) > 1:
+            return MultiArr({sg: Arr(sp, self.get(sg, col), True) for sg, sp in self.segments.items()})
         if isinstance(col, (int,)) and not isinstance(col, bool):
             seg = self._seg_of(rows)
             if seg is not None:
@@ -650,6 +690,17 @@ class Mat:
             for c, v in zip(range(lo, hi), vals):
                 self.sym_setitem(it, (rows, c), v)
             return
+        if isinstance(col, (list, tuple)) and all(isinstance(c, int) for c in col):
+            if isinstance(val, Cols):
+                if len(val.cols) != len(col):
+                    raise PyRaise(ValueError("could not broadcast input array into the column list"))
+                for c, v in zip(col, val.cols):
+                    self.sym_setitem(it, (rows, c), v)
+                return
+            if is_scalar(val):
+                for c in col:
+                    self.sym_setitem(it, (rows, c), val)
+                return
         if not isinstance(col, int):
             raise EngineError("ppc matrix store with non-constant column")
         seg = self._seg_of(rows)
@@ -714,22 +765,103 @@ class Mat:
         raise EngineError("row_of on a multi-segment matrix")
 
     def sym_len(self, it):
+        if len(self.segments) == 1:
+            return SV(next(iter(self.segments.values())).n)
         return SV(z3.Int(f"rows[{self.name}]"))
 
     def sym_isinstance(self, it, cls):
         return getattr(cls, "__name__", str(cls)) in ("ndarray", "object")
 
 
+class MultiArr:
+    """a whole column of a ppc matrix with several row segments (one array per segment)"""
+    is_array = True
+
+    def __init__(self, parts):
+        self.parts = dict(parts)
+
+    def sym_binop(self, it, op, a, b):
+        return elementwise(it, lambda x, y: it.binop(op, x, y), a, b)
+
+    def sym_compare(self, it, op, a, b):
+        import ast as _ast
+        node = {"<": _ast.Lt(), "<=": _ast.LtE(), ">": _ast.Gt(), ">=": _ast.GtE(), "==": _ast.Eq(), "!=": _ast.NotEq()}[op]
+        return elementwise(it, lambda x, y: it.cmpop(node, x, y), a, b)
+
+    def sym_unop(self, it, op):
+        return MultiArr({k: v.sym_unop(it, op) for k, v in self.parts.items()})
+
+    def sym_abs(self, it):
+        return MultiArr({k: v.sym_abs(it) for k, v in self.parts.items()})
+
+    def sym_getitem(self, it, key):
+        if isinstance(key, slice):
+            if key == slice(None, None, None):
+                return self
+            sg = seg_between(key.start, key.stop)
+            if sg is not None:
+                return self.parts[sg]
+        raise EngineError(f"index {key!r} into a multi-segment array")
+
+    def sym_isinstance(self, it, cls):
+        return getattr(cls, "__name__", str(cls)) in ("ndarray", "object")
+
+    def map(self, f):
+        return MultiArr({k: f(v) for k, v in self.parts.items()})
+
+
 class Cols:
-    """small 2-D array with a constant number of columns: tuple of aligned column arrays"""
+    """small 2-D array with a constant number of columns: tuple of aligned column arrays (Arr or MultiArr)"""
+    is_array = True
 
     def __init__(self, cols):
         self.cols = list(cols)
 
     def sym_getitem(self, it, key):
-        if isinstance(key, tuple) and len(key) == 2 and key[0] == slice(None, None, None) and isinstance(key[1], int):
-            return self.cols[key[1]]
-        raise EngineError("Cols index")
+        if isinstance(key, tuple) and len(key) == 2:
+            rows, col = key
+            sub = self if (isinstance(rows, slice) and rows == slice(None, None, None)) else self.sym_getitem(it, rows)
+            if isinstance(col, int):
+                return sub.cols[col]
+            if isinstance(col, (tuple, list)):
+                return Cols([sub.cols[c] for c in col])
+            raise EngineError("Cols column index")
+        if isinstance(key, slice) or isinstance(key, (Arr, Series)):
+            return Cols([it.getitem(c, key) for c in self.cols])
+        raise EngineError(f"Cols index {key!r}")
+
+    def sym_setitem(self, it, key, val):
+        if isinstance(key, tuple) and len(key) == 2 and isinstance(key[1], int):
+            rows, col = key
+            if isinstance(rows, slice) and rows == slice(None, None, None):
+                if isinstance(val, (Arr, Series, MultiArr)):
+                    self.cols[col] = val.arr() if isinstance(val, Series) else val
+                else:
+                    it.setitem(self.cols[col], slice(None, None, None), val)
+                return
+            it.setitem(self.cols[col], rows, val)
+            return
+        raise EngineError("Cols store")
+
+    def sym_binop(self, it, op, a, b):
+        return elementwise(it, lambda x, y: it.binop(op, x, y), a, b)
+
+    def sym_compare(self, it, op, a, b):
+        import ast as _ast
+        node = {"<": _ast.Lt(), "<=": _ast.LtE(), ">": _ast.Gt(), ">=": _ast.GtE(), "==": _ast.Eq(), "!=": _ast.NotEq()}[op]
+        return elementwise(it, lambda x, y: it.cmpop(node, x, y), a, b)
+
+    def sym_unop(self, it, op):
+        return Cols([it.unop(op, c) for c in self.cols])
+
+    def sym_isinstance(self, it, cls):
+        return getattr(cls, "__name__", str(cls)) in ("ndarray", "object")
+
+    def reduce_axis1(self, it, fn):
+        acc = self.cols[0]
+        for c in self.cols[1:]:
+            acc = elementwise(it, fn, acc, c)
+        return acc
 
 
 # ------------------------------------------------------------------------------------------------
